@@ -81,6 +81,7 @@ where
                             pres_a: vec![true],
                             pres_b: vec![true],
                             zero: vec![false],
+                            form: 0,
                         };
                         fails.push((case, sig, format!("[exhaustive grid] {why}")));
                     }
